@@ -795,3 +795,39 @@ def r10_total_conversion(ctx):
 
 
 RULES += [r10_total_conversion]
+
+
+def r11_shl_trunc_width(ctx):
+    ctx.rule("C13.r11", "wrapped_interval::Shl(k): Trunc(b - k) is reached only where k < b was established (k == b asks for a wrapint of "
+             "width 0, an error exit; k > b underflows)", floor=1)
+    fs = [f for f in ctx.db.fns(WII, name="Shl") if len(f.get("params", [])) == 1 and "int" in (f["params"][0].get("T") or "") and
+          "wrapped_interval" not in (f["params"][0].get("T") or "")]
+    if not ctx.need(fs, "wrapped_interval::Shl(uint64_t)", "C13.r11"):
+        return
+    seen = set()
+    for fn in fs:
+        if fn.get("cls") in seen:
+            continue
+        seen.add(fn.get("cls"))
+        body = fn["body"]
+        kid = fn["params"][0]["id"]
+        g = paths.guards(body)
+        for c in walk(body):
+            if not is_call(c, name="Trunc"):
+                continue
+
+            def atom(x):
+                pp = cmp_parts(x)
+                if pp and pp[0] in (">=", ">") and isinstance(strip(pp[1]), dict) and strip(pp[1]).get("id") == kid:
+                    return 1
+                if pp and pp[0] in ("<", "<=") and isinstance(strip(pp[1]), dict) and strip(pp[1]).get("id") == kid:
+                    return -1
+                return 0
+            if guard_truth(g.get(id(c), ()), atom, body) is False:
+                ctx.ok("Shl: Trunc(b - k) only for k < b", fn, c)
+            else:
+                ctx.bad("wrapped_interval::Shl(k) calls Trunc(b - k) without having excluded k >= b: x << b at width b exits with "
+                        "`no bitwidth found for a wrapint`", fn, c, sig="shl-trunc-zero-bits")
+
+
+RULES += [r11_shl_trunc_width]
